@@ -42,6 +42,11 @@
  *   fmtrej k pos      format_to(s, pos, "%lc", U+10FFFF): libc rejects the format in the C locale — a negative value is returned and
  *                     the String is untouched (String_Format_To after a626877)
  *   pfrej k pos T     print_to_with(s, pos, T "%lcZ", tuple($I(0x10FFFF))): T is written, then FormatError leaves
+ *   look k j pos      look_from(s_k, s_j, pos): String_Look reads a shown String ("…" with escapes) from the String j at pos <= len(j) into
+ *                     the String k: String_Clear, then one String_Concat per character; `looks k j pos` = scan_from(s_j, pos, "%$", s_k).
+ *                     Oracle: an independent un-escaping loop over the reference text (sig=str-look, str-look-ret, and the dump's
+ *                     str-len / str-content / str-term); text that is not a complete shown String: FormatError, the target holds what
+ *                     was read until then
  *   scanw k pos       scan_from(s, pos, "%s", word) reading from the String at pos <= len (observer)
  *   len k | cstr k | cmp k T | cmps k j | eq k T | mem k T | hash k   (hash prints the value: the Lean side computes hash_data's model, C10)
  *   alias <assign|concat|append|print|show|rem|mem|cmp> <self|v<off>> T [pos]
@@ -51,6 +56,9 @@
  *                     known finding KF-C16-alias-operand (sig=kf-c16-alias-operand; witness corpus/kf_c16_alias.ops; never generated);
  *                     assign with self or v0 (c_str(obj) is s->val: early return since 744a45f; sig=str-assign-self, an ordinary violation)
  *                     and rem / mem / cmp (no realloc) are checked against libc by value like any other call
+ *   stk <stack|static> <assign X|concat X|append X|resize n|clear|fmt pos X|rem X|assignself> on a String holding T that is NOT on the
+ *                     heap (written `stk cls what T [args]`), forked: reallocating functions must raise ValueError and touch nothing
+ *                     (CELLO_ALLOC_CHECK; sig=str-nonheap), rem works in place, assign(s, s) returns at once
  *   assignself k      assign(s, s) inside a history: nothing may change, the whole allocation included (744a45f)
  *   oom resize T n    resize(s, n) on a fresh String holding T whose realloc FAILS (returns NULL, old block untouched), in a forked
  *                     child: OutOfMemoryError must be raised (63509f2: the result is tested before it is written through;
@@ -297,6 +305,28 @@ static size_t show_ref(const char* t, char* out) {
   out[n++] = '"'; out[n] = 0; return n;
 }
 
+/* String_Look's reading, written independently for the oracle: the text between the quotes at in+pos, escapes undone, goes
+ * to out; returns the position behind the closing quote, or -1 where the code must raise FormatError (no opening quote, the
+ * input ends, an unknown escape letter) — out then holds what had been read until there (String_Look clears the target first
+ * and appends while it reads: KF-C15-look-clobbers-target is C15's finding; here the target must simply be that C string) */
+static size_t n_look_ok, n_look_exc, n_look_esc;
+static long look_ref(const char* src, size_t pos, char* out) {
+  size_t n = 0; const char* p = src + pos; out[0] = 0;
+  if (*p != '"') return -1;
+  for (p++;;) {
+    if (*p == 0) { out[n] = 0; return -1; }
+    if (*p == '"') { out[n] = 0; return (long)(p + 1 - src); }
+    if (*p == '\\') {
+      char c;
+      switch (p[1]) { case 'a': c = 7; break; case 'b': c = 8; break; case 'f': c = 12; break; case 'n': c = 10; break; case 'r': c = 13; break;
+        case 't': c = 9; break; case 'v': c = 11; break; case '\\': c = 92; break; case '\'': c = 39; break; case '"': c = 34; break; case '?': c = 63; break;
+        default: out[n] = 0; return -1; }
+      out[n++] = c; p += 2; n_look_esc++; continue;
+    }
+    out[n++] = *p++;
+  }
+}
+
 /* ---- arguments of pf / show: Int, String, Tuple (nested) */
 typedef struct PArg { char kind; long long i; char* s; int n; struct PArg* items[6]; var obj; } PArg;
 static void parg_free(PArg* a) { if (!a) return; for (int i = 0; i < a->n; i++) parg_free(a->items[i]); free(a->s); free(a); }
@@ -464,6 +494,64 @@ static void alias_op(const char* what, long off, const char* srct, const char* t
   I("alias %s len=%zu -> returned %.60s", call, tl, ob);
 }
 
+/* stk <stack|static> <what> <T> [args]: the call on a String that is NOT on the heap — header class AllocStack (what `$S("…")` makes) or
+ * AllocStatic, `val` pointing into an array of this harness — holding T, in a forked child (a missing alloc check would hand that
+ * pointer to realloc).  what = assign X | concat X | append X | resize n | clear | fmt pos X | rem X | assignself.
+ *     O stk <cls> <what> <outcome> len= s=        or        O stk <cls> <what> ub      (the child died)
+ * Oracle: every function that reallocates must raise ValueError and leave the text and the pointer alone (sig=str-nonheap);
+ * rem edits in place and is judged against libc; assign(s, s) returns at once (744a45f). */
+static size_t n_stk_refused, n_stk_ran;
+static void stk_op(const char* cls, const char* what, const char* text, const char* x, long num) {
+  int fd[2]; if (pipe(fd)) return;
+  fflush(stdout);
+  pid_t pid = fork();
+  if (pid == 0) {
+    close(fd[0]); int dn = open("/dev/null", O_WRONLY); if (dn >= 0) dup2(dn, 2); alarm(20);
+    static char hb[sizeof(struct Header) + sizeof(struct String) + 16]; static char arena[2 * ALIAS_MAXT + 64];
+    memset(arena, 0xA5, sizeof arena); strcpy(arena, text);
+    var s = header_init(hb, String, !strcmp(cls, "stack") ? AllocStack : AllocStatic);
+    ((struct String*)s)->val = arena;
+    var exc = NULL; int ret = 0; char oc[48] = "ok";
+    if (!strcmp(what, "assign")) V_TRY(exc, assign(s, $S((char*)x)));
+    else if (!strcmp(what, "concat")) V_TRY(exc, concat(s, $S((char*)x)));
+    else if (!strcmp(what, "append")) V_TRY(exc, append(s, $S((char*)x)));
+    else if (!strcmp(what, "resize")) V_TRY(exc, resize(s, (size_t)num));
+    else if (!strcmp(what, "clear")) V_TRY(exc, String_Clear(s));
+    else if (!strcmp(what, "fmt")) { V_TRY(exc, ret = format_to(s, (int)num, "%s", x)); if (!exc) snprintf(oc, sizeof oc, "ret=%d", ret); }
+    else if (!strcmp(what, "rem")) V_TRY(exc, rem(s, $S((char*)x)));
+    else V_TRY(exc, assign(s, s));
+    char* v = ((struct String*)s)->val; size_t l = strlen(v);
+    char pre[40]; hexpre(v, l, pre);
+    dprintf(fd[1], "%s len=%zu s=%s\n%s\n", exc ? v_exc_name(exc) : oc, l, pre, v == arena ? "same" : "moved");
+    for (size_t i = 0; i < l && i < 4 * ALIAS_MAXT; i++) dprintf(fd[1], "%02x", (unsigned char)v[i]);
+    _exit(0);
+  }
+  close(fd[1]);
+  static char ob[16384]; size_t ol = 0; ssize_t r;
+  while ((r = read(fd[0], ob + ol, sizeof ob - 1 - ol)) > 0) ol += r; ob[ol] = 0; close(fd[0]);
+  int st = 0; waitpid(pid, &st, 0);
+  int reallocs = strcmp(what, "rem") && strcmp(what, "assignself");
+  if (!WIFEXITED(st) || WEXITSTATUS(st) != 0) {
+    O("stk %s %s ub", cls, what);
+    X("sig=str-nonheap line=%zu what=%s on a %s String of %zu chars: the process died (%s %d) — its buffer, which did not come from malloc, went to realloc",
+      lineno, what, cls, strlen(text), WIFEXITED(st) ? "exit status" : "signal", WIFEXITED(st) ? WEXITSTATUS(st) : WTERMSIG(st));
+    return;
+  }
+  char* nl = strchr(ob, '\n'); if (nl) *nl = 0;
+  char* l2 = nl ? nl + 1 : ""; char* nl2 = strchr(l2, '\n'); if (nl2) *nl2 = 0;
+  const char* got = nl2 ? nl2 + 1 : "";
+  O("stk %s %s %s", cls, what, ob);
+  static char want[4 * ALIAS_MAXT + 16]; strcpy(want, text); const char* wexc = "ok ";
+  if (reallocs) wexc = "ValueError ";
+  else if (!strcmp(what, "rem")) { char* p = strstr(want, x); if (p) memmove(p, p + strlen(x), strlen(p + strlen(x)) + 1); else wexc = "ValueError "; }
+  static char wanthex[8 * ALIAS_MAXT + 16]; size_t wl = strlen(want);
+  for (size_t i = 0; i < wl; i++) sprintf(wanthex + 2 * i, "%02x", (unsigned char)want[i]); wanthex[2 * wl] = 0;
+  if (strncmp(ob, wexc, strlen(wexc)) != 0 || strcmp(got, wanthex) != 0 || strcmp(l2, "same") != 0)
+    X("sig=str-nonheap line=%zu what=%s on a %s String of %zu chars gave `%.40s` (buffer %s, %zu chars); expected `%s` and %s", lineno, what, cls, strlen(text), ob, l2, strlen(got) / 2,
+      wexc, reallocs ? "the text and the buffer untouched: a String that is not on the heap cannot be reallocated" : "the text libc computes in place");
+  if (!strncmp(ob, "ValueError", 10) && reallocs) n_stk_refused++; else n_stk_ran++;
+}
+
 /* oom resize <T> <n>: resize(s, n) on a fresh s = new(String, $S(T)) whose realloc fails, in a forked child (before 63509f2 the
  * library wrote through the NULL it got).  O oom resize <exception|ok> val=<NULL|kept|other>   or   O oom resize ub */
 static void oom_resize(const char* text, size_t n) {
@@ -534,6 +622,20 @@ int main(int argc, char** argv) {
         else { pos = strtol(tok[4], &e2, 10); if (pos > tl) ok = 0; }
       } else if (ok && nt != 4) ok = 0;
       if (ok) { nmut += mut; alias_op(w, off, tok[2], t1, pos); } else O("bad-op");
+      free(copyl); continue;
+    }
+    if (!strcmp(op, "stk")) {
+      /* stk <cls> <what> <T> [args] */
+      static char t3[MAXT]; long num = 0; int ok = nt >= 4 && (!strcmp(tok[1], "stack") || !strcmp(tok[1], "static"));
+      const char* w = nt >= 3 ? tok[2] : ""; long tl = ok ? dehex(tok[3], t1) : -1; if (tl < 0 || tl > ALIAS_MAXT) ok = 0;
+      int wx = !strcmp(w, "assign") || !strcmp(w, "concat") || !strcmp(w, "append") || !strcmp(w, "rem");
+      t3[0] = 0;
+      if (ok && wx) { long xl = nt == 5 ? dehex(tok[4], t3) : -1; if (xl < 0 || xl > ALIAS_MAXT) ok = 0; }
+      else if (ok && !strcmp(w, "resize")) { if (nt != 5 || !tok[4][0] || strspn(tok[4], "0123456789") != strlen(tok[4]) || strlen(tok[4]) > 6) ok = 0; else num = strtol(tok[4], NULL, 10); }
+      else if (ok && !strcmp(w, "fmt")) { if (nt != 6 || !tok[4][0] || strspn(tok[4], "0123456789") != strlen(tok[4]) || strlen(tok[4]) > 6) ok = 0; else { num = strtol(tok[4], NULL, 10); long xl = dehex(tok[5], t3); if (xl < 0 || xl > ALIAS_MAXT || num > tl) ok = 0; } }
+      else if (ok && (!strcmp(w, "clear") || !strcmp(w, "assignself"))) { if (nt != 4) ok = 0; }
+      else ok = 0;
+      if (ok) { nmut++; stk_op(tok[1], w, t1, t3, num); } else O("bad-op");
       free(copyl); continue;
     }
     if (!strcmp(op, "oom")) {
@@ -739,6 +841,22 @@ int main(int argc, char** argv) {
       if (pos <= rl && t1[0]) { ref_reserve(k, pos + strlen(t1)); snprintf(rtxt[k] + pos, strlen(t1) + 1, "%s", t1); }
       if (exc != FormatError) X("sig=str-exc line=%zu what=print_to_with with a specification libc rejects: %s instead of FormatError", lineno, v_exc_name(exc));
       nmut++; dump(op, k, exc ? v_exc_name(exc) : "ok");
+    } else if ((!strcmp(op, "look") || !strcmp(op, "looks")) && nt == 4) {
+      /* look k j pos: look_from(s_k, s_j, pos) (looks: scan_from(s_j, pos, "%$", s_k)) -> String_Look: String_Clear, then one
+         String_Concat per character read from the other String */
+      NEED_LIVE(k); NEED_OBJ(2); size_t pos; NEED_NUM(3, pos);
+      if (pos > strlen(rtxt[j])) { O("bad-op"); free(copyl); continue; }
+      int ret = -1;
+      if (op[4]) V_TRY(exc, ret = scan_from(sobj[j], (int)pos, "%$", sobj[k])); else V_TRY(exc, ret = look_from(sobj[k], sobj[j], (int)pos));
+      ref_reserve(k, strlen(rtxt[j]) + 1);
+      long want = look_ref(rtxt[j], pos, rtxt[k]);
+      if (want >= 0 && exc) X("sig=str-look line=%zu what=%s of a complete shown String at %zu raised %s", lineno, op, pos, v_exc_name(exc));
+      if (want < 0 && exc != FormatError) X("sig=str-look line=%zu what=%s of text that is not a complete shown String: %s instead of FormatError", lineno, op, v_exc_name(exc));
+      if (want >= 0 && !exc && ret != (int)want) X("sig=str-look-ret line=%zu what=%s returned %d, the closing quote of the reference ends at %ld", lineno, op, ret, want);
+      if (strcmp(valof(j), rtxt[j]) != 0) X("sig=str-content line=%zu what=%s changed the String it read from", lineno, op);
+      if (exc) { nexc++; n_look_exc++; } else n_look_ok++;
+      char oc[48]; snprintf(oc, sizeof oc, "ret=%d", ret);
+      nmut++; dump(op, k, exc ? v_exc_name(exc) : oc);
     } else if (!strcmp(op, "scanw") && nt == 3) {
       NEED_LIVE(k); size_t pos; NEED_NUM(2, pos); nobs++;
       size_t L = strlen(valof(k));
@@ -806,6 +924,8 @@ int main(int argc, char** argv) {
     free(copyl);
   }
   I("ops=%zu mutations=%zu observations=%zu raised=%zu maxlen=%zu", nops, nmut, nobs, nexc, maxlen);
+  I("stkstat refused=%zu ran=%zu", n_stk_refused, n_stk_ran);
+  I("lookstat ok=%zu raised=%zu escapes=%zu", n_look_ok, n_look_exc, n_look_esc);
   I("hashstat judged=%zu wrong=%zu texts=%zu equal-length-equal-hash=%zu reference=%s", n_hash_judged, n_hash_wrong, coll_texts, coll_pairs, ref_broken ? "BROKEN" : "ok");
   return 0;
 }
